@@ -17,7 +17,7 @@ import os
 from collections import Counter
 from typing import Dict, List, Optional
 
-THRESHOLD = int(os.environ.get('FJSA_SHAPE_THRESHOLD', '4'))
+THRESHOLD = int(os.environ.get("FJSA_SHAPE_THRESHOLD", "6"))
 _TABLE: Optional[Dict[str, List[str]]] = None
 
 
